@@ -18,7 +18,7 @@ RULE = (
     "One evaluation per loader pass / per baseline row; non-trivial = distinct case"
 )
 ASSUMPTIONS = ["baseline policy = small untrained AttentionModelPolicy; greedy rewards are batch-independent (C14)"]
-REQUIRED_COUNTERS = ["c17_loader_passes", "c17_partial_last_batch", "c17_shuffled_reads", "c17_extra_checks", "c17_wrap_calls", "c17_baseline_rows", "c17_history_rows", "c17_rewraps", "c17_optimizer_steps", "c17_fit_batches_with_extra"]
+REQUIRED_COUNTERS = ["c17_loader_passes", "c17_partial_last_batch", "c17_shuffled_reads", "c17_extra_checks", "c17_wrap_calls", "c17_baseline_rows", "c17_history_rows", "c17_rewraps", "c17_optimizer_steps", "c17_fit_batches_with_extra", "c17_train_mode_flips"]
 MIN_NONTRIVIAL = {"quick": 700, "thorough": 2000}
 WORKERS = {"quick": 14, "thorough": 16}
 BUDGET_S = {"quick": 400, "thorough": 3000}
@@ -51,7 +51,7 @@ def cases(tier, seed):
             for dscls in (None, "fast", "fastgen"):
                 for shuffle in (False, True):
                     out.append(dict(kind="history", env=env, N=N, bs_bl=rnd.choice([4, 7, 64]), bs=rnd.choice([3, 5]), shuffle=shuffle, s=rnd.randrange(10**6), dscls=dscls,
-                                    warmup=(rnd.random() < 0.3), opt_steps=rnd.choice([1, 2, 4])))
+                                    warmup=(rnd.random() < 0.3), opt_steps=rnd.choice([1, 2, 4]), val_sampling=(rnd.random() < 0.4), train_flip=(rnd.random() < 0.7)))
     # real training runs (RL4COTrainer.fit, REINFORCE + rollout baseline, optionally in warm-up), monitored per training batch
     for env in ("tsp", "cvrp"):
         for r in range(3 if q else 6):
